@@ -27,8 +27,9 @@ LABELS = {
 }
 PRE = [b"", b" ", b"x = ", b"abc;\n", b"1234567 ", b"\x00\x01 ", b"y = CreateObject(", b"call f(",
        # an earlier call of the same family that cannot be decoded / encoded (it must not stop the later, valid one from being reported)
+       b"Dim s _\r\n  As String : s = _\n", b"a = 1 + _\r\n    2\r\n",          # VBA line continuations earlier in the text
        b"atob('YWI'); Base64Decode(\"Q\"); FromBase64String('A'); chrw(56000) & ", b"FromHexString('zz') unescape('%zz') chr(55296) "]
-SUF = [b"", b" ", b";", b"\n", b" tail", b")", b") : z", b" ", b" + y", b" & var_1"]
+SUF = [b"", b" ", b";", b"\n", b" tail", b")", b") : z", b" ", b" + y", b" & var_1", b",", b".", b"-x", b", next", b". Then"]
 
 
 def b2l(b: bytes) -> list[int]:
